@@ -898,3 +898,152 @@ def launcher_bodies(doc):
     if b != {'task': 'continue', 'args': {'pid': 5, 'nowait': True, 'tag': 't'}}:
         bad.append(f'continue body {b}')
     return '; '.join(bad) or None
+
+
+# ---------------------------------------------------------------------------------------------------- C19 / C07 members
+def _savable_classes():
+    import plumpy
+    from plumpy import persistence
+
+    @persistence.auto_persist('plain', 'nested', 'meth', 'tup')
+    class Outer(persistence.Savable):
+        def __init__(self, inner):
+            self.plain = {'a': [1, 2, {'b': 3}]}
+            self.tup = ([1, 2], 'x')
+            self.nested = inner
+            self.meth = self.hello
+            self.unsaved = 'nope'
+
+        def hello(self):
+            return 'hello from %s' % id(self)
+
+    @persistence.auto_persist('value')
+    class Inner(persistence.Savable):
+        def __init__(self, value):
+            self.value = value
+
+    for k in (Outer, Inner):
+        k.__qualname__ = k.__name__
+        k.__module__ = __name__
+        globals()[k.__name__] = k       # so that the default object loader can identify / load them
+    return Outer, Inner
+
+
+def savable_members(doc):
+    """save_members / load_members / Savable.load on small object graphs: records, copies at save time, rebinding,
+    nested recreation through the loader, untouched other keys, missing class name"""
+    import plumpy
+    from plumpy import loaders, persistence
+    Outer, Inner = _savable_classes()
+    bad = []
+
+    class Loader(loaders.ObjectLoader):
+        used = []
+
+        def load_object(self, identifier):
+            Loader.used.append(identifier)
+            return {'Outer': Outer, 'Inner': Inner}[identifier.rsplit(':', 1)[-1]]
+
+        def identify_object(self, obj):
+            return obj.__name__
+
+    Loader.__qualname__ = 'Loader'
+    Loader.__module__ = __name__
+    globals()['Loader'] = Loader
+    loader = Loader()
+    ctx = persistence.LoadSaveContext(loader=loader)
+    inner = Inner([10, 20])
+    outer = Outer(inner)
+    out_state = {'other': 'kept'}
+    outer.save_members(['plain', 'nested', 'meth', 'tup'], out_state)
+    types_ = out_state.get('!!meta', {}).get('types', {})
+    if out_state.get('other') != 'kept':
+        bad.append('save_members touched an unrelated key')
+    if out_state.get('plain') != outer.plain or out_state.get('plain') is outer.plain:
+        bad.append('a plain member is not recorded as an equal copy')
+    outer.plain['a'][2]['b'] = 99
+    outer.tup[0].append(3)
+    if out_state['plain']['a'][2]['b'] != 3:
+        bad.append('a later mutation of the original shows in the saved state (dict member)')
+    if out_state.get('tup') != ([1, 2], 'x'):
+        bad.append(f"a later mutation of the original shows in the saved state (tuple member): {out_state.get('tup')}")
+    if out_state.get('meth') != 'hello' or types_.get('meth') != 'm':
+        bad.append(f"a bound method is not recorded by name: {out_state.get('meth')!r} {types_.get('meth')!r}")
+    if types_.get('nested') != 'S' or not isinstance(out_state.get('nested'), dict) or out_state['nested'].get('value') != [10, 20]:
+        bad.append('a nested Savable is not recorded as its own saved state')
+    if 'unsaved' in out_state:
+        bad.append('an undeclared attribute was saved')
+    # ---- whole round trip through the named loader
+    saved = outer.save(ctx)
+    Loader.used.clear()
+    loaded = persistence.Savable.load(saved, ctx)
+    if type(loaded) is not Outer or 'Outer' not in Loader.used:
+        bad.append(f'the class was not resolved through the given loader: {type(loaded).__name__}, loader saw {Loader.used}')
+    else:
+        if loaded.plain != outer.plain or loaded.tup != outer.tup:
+            bad.append('plain members differ after the round trip')
+        if getattr(loaded.meth, '__self__', None) is not loaded or loaded.meth.__name__ != 'hello':
+            bad.append('a bound method was not rebound to the new object')
+        if type(loaded.nested) is not Inner or loaded.nested.value != [10, 20] or loaded.nested is inner:
+            bad.append('the nested Savable was not recreated')
+        if hasattr(loaded, 'unsaved'):
+            bad.append('an undeclared attribute was restored')
+    # ---- the same, with the loader class recorded in the saved state only
+    # ---- missing class name / missing member
+    try:
+        persistence.Savable.load({'plain': 1}, ctx)
+        bad.append('a saved state without a class name produced an object')
+    except ValueError:
+        pass
+    broken = dict(saved)
+    del broken['plain']
+    try:
+        persistence.Savable.load(broken, ctx)
+        bad.append('a saved state missing a declared member produced an object')
+    except KeyError:
+        pass
+    # ---- methods of other objects are refused
+    other = Outer(inner)
+    outer.meth = other.hello
+    try:
+        outer.save_members(['meth'], {})
+        bad.append('a method bound to another object was saved')
+    except TypeError:
+        pass
+    return '; '.join(bad) or None
+
+
+def auto_persist_members(doc):
+    """bounded search over small class hierarchies: which members each class declares after decorators / classmethod calls"""
+    import itertools
+    from plumpy import persistence
+    bad = []
+    names = ['a', 'b', 'c']
+    for base_members, extra_call, sub_members, sub2_members in itertools.product(
+            [(), ('a',), ('a', 'b')], [(), ('x',)], [(), ('c',), ('a', 'c')], [None, ('d',)]):
+        class Base(persistence.Savable):
+            pass
+        if base_members:
+            Base = persistence.auto_persist(*base_members)(Base)
+        if extra_call:
+            Base.auto_persist(*extra_call)
+        base_before = set(Base._auto_persist) if Base._auto_persist is not None else None
+
+        class Sub(Base):
+            pass
+        Sub = persistence.auto_persist(*sub_members)(Sub)
+        want = set(base_members) | set(extra_call) | set(sub_members)
+        if sub2_members is not None:
+            Sub = persistence.auto_persist(*sub2_members)(Sub)
+            want |= set(sub2_members)
+        got = set(Sub._auto_persist)
+        if got != want:
+            bad.append(f'base declares {base_members}+{extra_call}, subclass decorated with {sub_members} then {sub2_members}: '
+                       f'subclass members {sorted(got)}, expected {sorted(want)}')
+        now = set(Base._auto_persist) if Base._auto_persist is not None else None
+        if now != base_before:
+            bad.append(f'decorating the subclass changed the base class members: {base_before} -> {now}')
+        if Base._auto_persist is not None and Sub._auto_persist is Base._auto_persist:
+            bad.append('subclass and base share one member set')
+    # multiple inheritance: members of all decorated bases that the MRO resolves first are kept by copy
+    return '; '.join(bad[:3]) or None
